@@ -37,8 +37,14 @@ def cli_plan(seed, i):
     stale = (not verbose_dump) and rng.random() < 0.25   # an earlier, longer output is already there
     clock = (rng.randrange(10**9, 2 * 10**18), rng.choice([1, 1000, 10**6, 10**9]))
     pid = rng.randrange(2, 4_000_000)
+    # a fault on the write of the output file (a fifth of the runs that write one): the tool
+    # may fail, it may not claim success with less than it promised
+    fault = None
+    if not verbose_dump and rng.random() < 0.2:
+        fault = rng.choice([["fwrite:0:errno:28"], ["fwrite:0:errno:5"], ["fwrite:0:short:%d" % rng.choice([1, 512, 1024]), "fwrite:1:errno:28"],
+                            ["fwrite:0:eintr:1"], ["fwrite:0:short:%d" % rng.choice([1, 700])]])
     return {"mode": "cli", "i": i, "kb": kb, "entropy": entropy,
-            "verbose_dump": verbose_dump, "stale": stale, "clock": clock, "pid": pid,
+            "verbose_dump": verbose_dump, "stale": stale, "clock": clock, "pid": pid, "fault": fault,
             "run_seed": run_seed(seed, TAG_CLI, i)}
 
 
@@ -68,7 +74,7 @@ def lexcheck(path, cwd):
 def exec_cli(plan, keep=False):
     """Run one CLI plan. Returns dict(result)."""
     wd = fresh_dir(os.path.join(work_root(), "C19", "cli-%d" % plan["i"]))
-    env = sim_env(base_env(), entropy=plan["entropy"], clock=tuple(plan["clock"]),
+    env = sim_env(base_env(), entropy=plan["entropy"], clock=tuple(plan["clock"]), plan=plan.get("fault"),
                   pid=plan["pid"], trace=os.path.join(wd, "trace.txt"), trace_stdio=False)
     kb = plan["kb"]
     res = {"i": plan["i"], "kb": kb, "mode": "cli", "class": None}
@@ -83,10 +89,14 @@ def exec_cli(plan, keep=False):
     r = run_proc(argv, wd, env)
     trace = read_trace(os.path.join(wd, "trace.txt"))
     res["entropy_requests"] = sum(1 for l in trace if l.startswith("R "))
+    res["faults_fired"] = sum(1 for l in trace if l.startswith("F "))
+    hard = bool(plan.get("fault")) and any(":errno:" in p for p in plan["fault"])
     text_path = os.path.join(wd, "text.pn")
     if r.timeout:
         res["class"] = "hang"
         res["detail"] = "penne fuzz did not finish in %ds" % TIMEOUT_S
+    elif hard and res["faults_fired"] and r.rc == 1 and not r.sig:
+        res["fault_reported"] = True      # the write failed and the tool said so
     elif r.rc != 0 or r.sig:
         res["class"] = "fuzzer_crash"
         res["detail"] = json.dumps(r.brief())
@@ -329,7 +339,10 @@ def run(tier, seed):
         "total_output_bytes": total_bytes,
         "kb_histogram": {str(k): v for k, v in sorted(kb_hist.items())},
         "fault_kinds": {"entropy": {"configured": outputs, "fired_getrandom_calls_cli": ent_req},
-                        "clock": {"configured": n_cli}, "pid": {"configured": n_cli}},
+                        "clock": {"configured": n_cli}, "pid": {"configured": n_cli},
+                        "output_file_write_fault": {"configured": sum(1 for i in range(n_cli) if cli_plan(seed, i).get("fault")),
+                                                    "fired": sum(1 for r in cli_results if r.get("faults_fired")),
+                                                    "reported_as_failure": sum(1 for r in cli_results if r.get("fault_reported"))}},
         "token_kinds_seen": len(stats["kinds"]),
         "token_kinds_possible": all_kinds,
         "token_kind_counts": dict(sorted(stats["kinds"].items())),
